@@ -91,7 +91,10 @@ class DiscInfo(productmd.common.MetadataBase):
     def deserialize(self, parser):
         lines = parser
         self.timestamp = float(lines[0].strip())
-        self.description = lines[1].strip().strip("\"\'")
+        self.description = lines[1].strip()
+        if len(self.description) >= 2 and self.description[0] == self.description[-1] and self.description[0] in "\"\'":
+            # a description wrapped in quotes; a quote at one end only belongs to the text
+            self.description = self.description[1:-1]
         self.arch = lines[2].strip()
         disc_numbers = None
         if len(parser) >= 4:
